@@ -195,15 +195,17 @@ Record zstate := mkz {
   z_cur : N;                        (* ZoneVersions.current.0 *)
   z_apex : rrsets;                  (* ZoneApex.rrsets *)
   z_nodes : list (N * znode);       (* ZoneApex.children *)
-  z_writer : option writer          (* the WriteZone holding update_lock, if any *)
+  z_writer : option writer;         (* the WriteZone holding update_lock, if any *)
+  z_handle : option N               (* version carried by a root WriteNode that the client kept
+                                       beyond the commit() or drop that ended its session *)
 }.
 
 Definition set_nodes (s : zstate) (ns : list (N * znode)) : zstate :=
-  mkz (z_cur s) (z_apex s) ns (z_writer s).
+  mkz (z_cur s) (z_apex s) ns (z_writer s) (z_handle s).
 Definition set_apex (s : zstate) (rs : rrsets) : zstate :=
-  mkz (z_cur s) rs (z_nodes s) (z_writer s).
+  mkz (z_cur s) rs (z_nodes s) (z_writer s) (z_handle s).
 Definition set_writer (s : zstate) (w : option writer) : zstate :=
-  mkz (z_cur s) (z_apex s) (z_nodes s) w.
+  mkz (z_cur s) (z_apex s) (z_nodes s) w (z_handle s).
 
 (* WriteNode::update_child(label) followed by `f` on the child:
    with_or_default creates the node; a created node gets make_regular *)
@@ -218,12 +220,12 @@ Definition z_rollback (s : zstate) (v : N) : zstate :=
   mkz (z_cur s)
       (if apex_rollback_rrsets then rs_rollback (z_apex s) v else z_apex s)
       (if apex_rollback_children then al_map (fun n => n_rollback n v) (z_nodes s) else z_nodes s)
-      (z_writer s).
+      (z_writer s) (z_handle s).
 Definition z_remove_all (s : zstate) (v : N) : zstate :=
   mkz (z_cur s)
       (if apex_remove_all_rrsets then rs_remove_all (z_apex s) v else z_apex s)
       (if apex_remove_all_children then al_map (fun n => n_remove_all n v) (z_nodes s) else z_nodes s)
-      (z_writer s).
+      (z_writer s) (z_handle s).
 
 Inductive event :=
 | EAcquire (r : N)                 (* zone.read() into reader slot r *)
@@ -239,8 +241,9 @@ Inductive event :=
 | ERemoveAllAt (name : N)          (* root.update_child(name).remove_all() *)
 | ECname (name id : N)             (* root.update_child(name).make_cname(id) *)
 | ERegular (name : N)              (* root.update_child(name).make_regular() *)
-| ECommit                          (* writer.commit(false); node handles discarded *)
-| EDrop.                           (* drop(writer) *)
+| ECommit                          (* writer.commit(false); the root handle is kept aside *)
+| EDrop                            (* drop(writer); the root handle is kept aside *)
+| EStale (e : event).              (* data operation e through the handle kept aside *)
 
 (* a data operation of the open writer at version v *)
 Definition data_op (s : zstate) (v : N) (e : event) : zstate :=
@@ -291,14 +294,25 @@ Definition step (s : zstate) (e : event) : zstate :=
           mkz (if publish_sets_current_to_new then w_new w else z_cur s) (z_apex s) (z_nodes s)
               (Some (mkw (if publish_advances_new_version then ver_next (w_new w) else w_new w)
                          (if publish_clears_dirty then false else w_dirty w) false))
+              (if w_open w then Some (w_new w) else z_handle s)
       | None => s
       end
   | EDrop =>
       match z_writer s with
       | Some w =>
-          set_writer (if w_dirty w && drop_rolls_back_when_dirty then z_rollback s (w_new w) else s) None
+          let s' := set_writer (if w_dirty w && drop_rolls_back_when_dirty then z_rollback s (w_new w) else s) None in
+          mkz (z_cur s') (z_apex s') (z_nodes s') None (if w_open w then Some (w_new w) else z_handle s)
       | None => s
       end
+  | EStale e' =>
+      (* WriteNode keeps a clone of the WriteZone with the version it was opened
+         for; unless the handle is rejected it writes at that version, with or
+         without a writer holding the lock *)
+      if stale_handle_rejected then s
+      else match z_handle s with
+           | Some hv => if is_data e' then data_op s hv e' else s
+           | None => s
+           end
   | _ =>
       if is_data e then
         match z_writer s with
@@ -378,13 +392,14 @@ Definition build_one (s : zstate) (i : init) : zstate :=
       else set_nodes s (al_upd name (fun n => n_update_special n 0 (Some (SCname id))) empty_node (z_nodes s))
   end.
 
-Definition build (is : list init) : zstate := fold_left build_one is (mkz 0 [] [] None).
+Definition build (is : list init) : zstate := fold_left build_one is (mkz 0 [] [] None None).
 
 (* ---------------------------------------------------------------- trace runner (driver) *)
 
 Inductive obs :=
 | OAnswer (a : answer) | OWalk (l : list (N * N * N)) | ONoReader
-| OGranted | OPending.
+| OGranted | OPending
+| OStaleDone | OStaleRejected | OStaleNoHandle.
 
 Fixpoint trace (s : zstate) (rd : list (N * N)) (evs : list event) : list obs :=
   match evs with
@@ -402,6 +417,11 @@ Fixpoint trace (s : zstate) (rd : list (N * N)) (evs : list event) : list obs :=
           :: trace s rd tl
       | EWAcquire =>
           (match z_writer s with Some _ => if writer_takes_mutex then OPending else OGranted | None => OGranted end)
+          :: trace (step s e) rd tl
+      | EStale _ =>
+          (match z_handle s with
+           | Some _ => if stale_handle_rejected then OStaleRejected else OStaleDone
+           | None => OStaleNoHandle end)
           :: trace (step s e) rd tl
       | _ => trace (step s e) rd tl
       end
